@@ -126,6 +126,8 @@ Step(S0) ==
   \cup {Xp(W(e, 3) \o " if b else " \o W(e, 2), e.ty, 2) : e \in {z \in SP : z.ty.k \in {"int", "str", "list", "C"}}}
   \cup {Xp(W(e, 11) \o " + 1", TInt, 11) : e \in {z \in S : z.ty.k = "int"}}
   \cup {Xp(W(e, 12) \o " * 2", TInt, 12) : e \in {z \in S : z.ty.k = "int"}}
+  \* repetition keeps the list's own element type, whichever list was repeated before
+  \cup {Xp(W(e, 12) \o " * 2", e.ty, 12) : e \in {z \in SP : z.ty.k = "list"}}
   \cup {Xp(W(e, 12) \o " % 3", TInt, 12) : e \in {z \in S : z.ty.k = "int"}}
   \cup {Xp(W(e, 11) \o " - x", TFloat, 11) : e \in {z \in S : z.ty.k \in {"int", "float"}}}
   \cup {Xp(W(e, 12) \o " * x", TFloat, 12) : e \in {z \in S : z.ty.k \in {"int", "float"}}}
